@@ -502,11 +502,15 @@ AfterExec(s, o) ==                        \* the rest of step() once execute ret
 \* Process.out(port, value) for values the output spec accepts (validation: module Ports):
 \* on_output_emitting; store; on_output_emitted (listeners, then the user's override)
 RECURSIVE EmitAll(_, _)
+\* outputs[port] = value: a port emitted again (a step run again after a restore) keeps its place and takes the new value
+PutOutput(outs, e) ==
+  LET at == {j \in 1..Len(outs) : outs[j][1] = e[1]}
+  IN IF at = {} THEN Append(outs, e) ELSE [outs EXCEPT ![CHOOSE j \in at : TRUE] = e]
 EmitAll(s, emits) ==
   IF emits = <<>> THEN Ok(s, None)
   ELSE LET e == Head(emits) IN
        Then(Hook(s, "on_output_emitting"), LAMBDA t :
-       Then(Hook(Listeners([t EXCEPT !.outputs = Append(@, e)], "output", e[1]), "on_output_emitted"), LAMBDA u :
+       Then(Hook(Listeners([t EXCEPT !.outputs = PutOutput(@, e)], "output", e[1]), "on_output_emitted"), LAMBDA u :
        EmitAll(u, Tail(emits))))
 
 \* the body of a user step function: log, status, outputs, planned re-entrant requests
